@@ -2456,6 +2456,8 @@ class _Run:
         self._read_before = {}  # id(read call) -> (key, position interval before the read) of the latest evaluation
         self._fkeys = None
         self.executed = []      # statements the abstract run went through (in order, with repetitions)
+        self.unchecked_reads = []  # read calls whose result was not (yet) known to be non-empty when they were executed
+        self._exec_ids = None
         self.loose = []         # events after which positions are no longer exact knowledge (reasons, for the verdict policy)
         self.oracle = None      # PathOracle: follow ONE branch of every `if` that is not inside an inner loop
         self.loop_depth = 0
@@ -2711,11 +2713,39 @@ class _Run:
             short_true = not short_true
         return (rd[0], short_true, int(k))
 
-    def read_result_is_inert(self, rcall):
+    def read_result_is_inert(self, rcall, on_path=True):
         """the bytes returned by this (unchecked) read are only stored / accumulated / searched / length-tested in ways
         this analysis understands -- nothing that could reject a short result behind our back (indexing `z[0]`,
-        `ord`, `int.from_bytes`, an unknown callee ...).  Needed before a read may count as *definitely* unchecked."""
-        return self._inert_use(rcall, 0)
+        `ord`, an unknown callee ...).  Needed before a read may count as *definitely* unchecked.
+        on_path: only uses in statements this run executed count (the run followed one syntactic path)."""
+        self._exec_ids = set(id(x) for x in self.executed) if on_path else None
+        try:
+            return self._inert_use(rcall, 0)
+        finally:
+            self._exec_ids = None
+
+    def _on_path(self, node):
+        if self._exec_ids is None:
+            return True
+        n = node
+        while n is not None and not isinstance(n, ast.stmt):
+            n = parent(n)
+        return n is None or id(n) in self._exec_ids
+
+    @staticmethod
+    def _guarded_by_truth(node, name):
+        """node sits in the body of an `X if name else Y` / `if name:` / `if len(name) ...:` whose test mentions name"""
+        n = node
+        while n is not None:
+            p = parent(n)
+            if isinstance(p, ast.IfExp) and p.body is n and any(isinstance(x, ast.Name) and x.id == name for x in ast.walk(p.test)):
+                return True
+            if isinstance(p, ast.If) and any(y is n for y in p.body) and any(isinstance(x, ast.Name) and x.id == name for x in ast.walk(p.test)):
+                return True
+            if isinstance(p, (ast.FunctionDef, ast.AsyncFunctionDef)):
+                return False
+            n = p
+        return False
 
     _INERT_METHODS = ("split", "rsplit", "partition", "rpartition", "startswith", "endswith", "find", "rfind", "count", "strip",
                       "rstrip", "lstrip", "hex", "decode", "replace", "join", "lower", "upper")
@@ -2745,7 +2775,10 @@ class _Run:
         if isinstance(p, ast.BinOp) and isinstance(p.op, (ast.Add, ast.Mod)):
             return self._inert_use(p, depth + 1) if isinstance(p.op, ast.Add) else True
         if isinstance(p, ast.Subscript) and p.value is node:
-            return isinstance(p.slice, ast.Slice) and self._inert_use(p, depth + 1)
+            if isinstance(p.slice, ast.Slice):
+                return self._inert_use(p, depth + 1)
+            # z[0]: raises on an empty result unless the code has just checked z
+            return isinstance(node, ast.Name) and self._guarded_by_truth(p, node.id)
         if isinstance(p, ast.Attribute) and p.value is node:
             pp = parent(p)
             if isinstance(pp, ast.Call) and pp.func is p and p.attr in self._INERT_METHODS:
@@ -2761,6 +2794,8 @@ class _Run:
                 return True
             if isinstance(fn, ast.Attribute) and ast.unparse(fn).startswith(("logger.", "logging.")):
                 return True
+            if ast.unparse(fn) == "int.from_bytes":
+                return True   # accepts any length (b'' -> 0)
             r = self.cg.resolve_callable(fn, self.f)
             if r is not None and r[0] == "external" and r[1] in ("io.BytesIO", "BytesIO", "io.BufferedReader"):
                 return True   # a sub-stream: its own reads are analysed where they happen
@@ -2799,16 +2834,21 @@ class _Run:
     def _name_uses_inert(self, name, f, depth, after=None):
         key = ("inert", id(f.node), name)
         cache = self.sa.__dict__.setdefault("_inert_cache", {})
-        if key in cache:
+        if key in cache and (self._exec_ids is None or f is not self.f):
             return cache[key]
         cache[key] = True
         ok = True
         for n in own_nodes(f.node):
             if isinstance(n, ast.Name) and n.id == name and isinstance(n.ctx, ast.Load):
+                if f is self.f and not self._on_path(n):
+                    continue
                 if not self._inert_use(n, depth):
                     ok = False
                     break
-        cache[key] = ok
+        if self._exec_ids is None or f is not self.f:
+            cache[key] = ok
+        else:
+            cache.pop(key, None)   # path dependent: not cacheable
         return ok
 
     def _param_receiving(self, call, tgt, kind, node):
@@ -3578,8 +3618,8 @@ class _Run:
                     p = st.p(key)
                     if b[0] == b[1] and p[1] + b[1] <= st.kend.get(key, -INF):
                         lo = b[0]   # the bytes are known to exist: a checked read already got past them
-            if lo == 0 and not self.read_result_is_inert(e):
-                self.loose.append("the bytes returned by `%s` are used in a way that may reject a short read" % ast.unparse(e)[:50])
+            if lo == 0:
+                self.unchecked_reads.append(e)
             self._advance(st, key, (lo, hi))
             return st
         # seek
